@@ -142,13 +142,42 @@ def value_cases(tier):
             yield {"kind": "values", "seed": 1000 + seed, "comps": comps, "steps": 3, "shares": shares}
 
 
+def check_setup_names(case):
+    """IndexMarket.setup with a `markets` list that mixes market names, group names and repetitions: either the configuration is refused, or the components are pairwise
+    distinct markets that declare outstanding shares (a component counted twice would get twice its weight)"""
+    from pams.index_market import IndexMarket
+    from pams.market import Market
+    from pams.simulator import Simulator
+    sim = Simulator(prng=random.Random(3))
+    for i, (nm, grp) in enumerate((("Spot-0", "Spot"), ("Spot-1", "Spot"), ("Other", None))):
+        m = Market(market_id=i, prng=random.Random(i), simulator=sim, name=nm)
+        m.setup({"tickSize": 0.01, "marketPrice": 100.0 + 10 * i, "outstandingShares": 10 * (i + 1)})
+        sim._add_market(m, group_name=grp)
+    idx = IndexMarket(market_id=9, prng=random.Random(9), simulator=sim, name="I")
+    try:
+        idx.setup({"tickSize": 0.01, "marketPrice": 100.0, "markets": list(case["names"])})
+    except (KeyError, ValueError, AssertionError):
+        return None
+    comps = idx.get_components()
+    if len({id(c) for c in comps}) != len(comps) or any(c.outstanding_shares is None for c in comps):
+        return f"IndexMarket.setup with markets {case['names']} accepted the components {[c.name for c in comps]} (not pairwise distinct)"
+    return None
+
+
+def setup_name_cases():
+    for names in (["Spot-0", "Other"], ["Spot-0", "Spot-0"], ["Spot-0", "Other", "Spot"], ["Spot", "Spot"], ["Spot", "Spot-1"], ["Other", "Spot"], ["Nope"]):
+        yield {"kind": "setup_names", "names": names}
+
+
 def _check(case):
+    if case["kind"] == "setup_names":
+        return check_setup_names(case)
     return check_registration(case) if case["kind"] == "registration" else check_values(case)
 
 
 def search(seed, tier, obligation, hints):
     cases = 0
-    for case in itertools.chain(registration_cases(), value_cases(tier)):
+    for case in itertools.chain(setup_name_cases(), registration_cases(), value_cases(tier)):
         cases += 1
         why = _check(case)
         if why:
